@@ -190,9 +190,15 @@ def parseEvent (s : String) : Option Event :=
     | _ => none
   | _ => (parseFrame s).map Event.c
 
+/-- the events of a recorded history; a GOAWAY written by the client (`G`, seen only when the
+flush of a later RST_STREAM carries it out before the socket is closed) is always legal and not
+a frame of the model: dropped -/
+def historyEvents (events : String) : Option (List Event) :=
+  ((splitNonEmpty events ";").filter (· != "G")).mapM parseEvent
+
 def laneMonitor : List String → String
   | [consumed, events] =>
-    match (splitNonEmpty events ";").mapM parseEvent with
+    match historyEvents events with
     | some evs => if consumed == "1" then Monitor.verdictConsumed evs else Monitor.verdict evs
     | none => "bad-op"
   | _ => "bad-op"
@@ -200,7 +206,7 @@ def laneMonitor : List String → String
 /-- the race-tolerant reading (classification of the known finding `c06-settings-ack-race`) -/
 def laneMonitorTolerant : List String → String
   | [consumed, events] =>
-    match (splitNonEmpty events ";").mapM parseEvent with
+    match historyEvents events with
     | some evs => Monitor.verdictTolerant evs (consumed == "1")
     | none => "bad-op"
   | _ => "bad-op"
